@@ -83,7 +83,10 @@ fn scales<T: Tier>(float: bool) -> Vec<T> {
     }
 }
 fn disps<T: Tier>() -> Vec<[T; 3]> {
-    (0..3).map(|v| vec_from_r::<T, 3>(&alphabet::generic(3, v))).collect()
+    let mut d: Vec<[T; 3]> = (0..3).map(|v| vec_from_r::<T, 3>(&alphabet::generic(3, v))).collect();
+    // a far displacement (with the small rotations and scales among the generators: two extremes in one composition)
+    d.push(vec_from_r::<T, 3>(&alphabet::generic(3, 3).iter().map(|r| (r.0 << 12, r.1)).collect::<Vec<_>>()));
+    d
 }
 
 // ---- Decomposed<Vector3, Quaternion>
